@@ -157,7 +157,10 @@ FOSmall == { f \in FODomain : (f.ot.variable = 1 /\ f.ot.priority = 0 /\ f.ot.ty
                                \/ (f.ot.size = 510 /\ f.to.size = 510 /\ f.cpath = << [k |-> "class", v |-> 2], [k |-> "inst", v |-> 1] >>) }
 EmitFO(f) == PrintT(ToJson([k |-> "fwd", f |-> f, large |-> IsLargeFO(f.ot, f.to), b |-> EncForwardOpen(f),
                             rpy |-> EncForwardOpenReply(f, <<64, 66, 15, 0>>, <<128, 132, 30, 0>>), fail |-> EncForwardOpenFail(f, 1, <<256>>),
-                            close |-> EncForwardClose(f), closerpy |-> EncForwardCloseReply(f)]))
+                            close |-> EncForwardClose(f), closerpy |-> EncForwardCloseReply(f),
+                            apps |-> [ n \in 1 .. 4 |-> LET app == SubSeq(<<7, 8, 9, 10>>, 1, n) IN
+                                       [app |-> app, rpy |-> EncForwardOpenReplyApp(f, <<64, 66, 15, 0>>, <<128, 132, 30, 0>>, app),
+                                        closerpy |-> EncForwardCloseReplyApp(f, app)] ]]))
 
 \* Common Packet Format lists of 0..3 items: every item kind the library knows plus items it does not (kept as raw octets)
 RawItem(ty, raw) == [kind |-> "raw", type |-> ty, raw |-> raw, b |-> EncCPFItem(ty, raw)]
